@@ -66,8 +66,22 @@ func GetIPAtIndex(ipNet net.IPNet, index int64) net.IP {
 		val.SetBytes(ip)
 	}
 	val.Add(val, big.NewInt(index))
-	if ipNet.Contains(val.Bytes()) {
-		return val.Bytes()
+	if val.Sign() < 0 {
+		return nil
+	}
+	// big.Int.Bytes drops leading zero bytes: pad back to the address length
+	size := net.IPv6len
+	if ip.To4() != nil {
+		size = net.IPv4len
+	}
+	res := val.Bytes()
+	if len(res) < size {
+		padded := make([]byte, size)
+		copy(padded[size-len(res):], res)
+		res = padded
+	}
+	if ipNet.Contains(res) {
+		return res
 	}
 	return nil
 }
